@@ -290,7 +290,7 @@ EXPECTED = {
     # scratch buffers: tmp4_ok / tmp6_ok / encode_string_ok / hashuffdac_dec_ok
     "hashuffdac.tmp": ["4*maxlength"],
     "statcoder.encodeSymbol": "{uintcodeword=codewords[(int)symbol].codeword;uintbits=codewords[(int)symbol].bits;" + (_ENC % {"b": "bits", "w": "codeword"})[1:],
-    "statcoder.encodeString.buffer": "4*strLen",
+    "statcoder.encodeString.buffer": "4*(size_t)strLen+1",
     # CapacityDefs.cap_grow: the buffer doubles
     "reallocate.uchar": "len*2",
     "reallocate.int": "len*2",
@@ -306,7 +306,7 @@ THEOREMS = {
     "hashhf.text.check": "C07_cap2_hashhf_ok", "hashhf.tail.check": "C07_cap2_hashhf_ok",
     "rpfc.tmp": "C07_cap2_tmp4_ok", "rphtfc.tmp": "C07_cap2_tmp4_ok", "htfc.tmp": "C07_cap2_tmp4_ok", "hhtfc.tmp": "C07_cap2_tmp4_ok",
     "hashuffdac.tmp": "C07_cap2_tmp4_ok / C07_cap2_hashuffdac_dec_ok", "hashhf.tmp": "C07_cap2_tmp6_ok",
-    "statcoder.encodeString.buffer": "C07_cap2_encode_string_ok",
+    "statcoder.encodeString.buffer": "C07_cap2_encode_string_plus1_ok",
     "statcoder.encodeSymbol": "C07_cap2_encode_symbol", "rpfc.encodeSymbol": "C07_cap2_encode_symbol", "rphtfc.encodeSymbol": "C07_cap2_encode_symbol",
 }
 
